@@ -27,6 +27,8 @@ facade's initial state `init regP regK`.  History-level vocabulary (defined in P
   `stop_undrained_delivers`     the hypothesis is needed: a post still in the ready queue
                                 when stop() is called IS delivered (finer granularity than
                                 the property's histories; replayed on the real code);
+* `active_spec`, `selfact_irrelevant`  the updaters' own `active` flag: what it is after a
+                                history, and that no delivery decision depends on it;
 * `chg_chain`                   volume / output-device / focus notifications (old,new) form a
                                 chain from the initial value to the facade's current value,
                                 every link a real change (`chain_spec` spells it out);
@@ -254,6 +256,28 @@ theorem drained_change_exact (regP regK : List Proto) (pre : List Ev) (k : Kind)
     · simp [run, step, ha, hq, drainQ, runCb, hv]
   · simp [run, step, ha, hq, drainQ]
 
+/-! ## The protocol updaters' own `active` state
+
+`active` belongs to the protocol's updater: start()/stop() set it, and it may change by
+itself (`selfact`: poller died after an error, task cancelled, protocol restarted it).
+All theorems above quantify over such events anywhere in the history.  Two more say what
+the flag is and that the facade's delivery decisions never look at it. -/
+
+/-- `active` of updater `p` after any history: the last of start() (registered updaters: on),
+    stop() (registered: off) and the updater's own changes. -/
+theorem active_spec (regP regK : List Proto) (evs : List Ev) (p : Proto) :
+    (run (init regP regK) evs).1.act p = evs.foldl (actStep regP p) false :=
+  run_act evs (init regP regK) p
+
+/-- **C10, independent of the updaters' own activity.**  Removing every "updater turns
+    (in)active by itself" event from a history changes nothing the user's listeners receive
+    (and nothing of the state except the flags themselves): in particular an updater that
+    went inactive on its own is un-wired by stop() like any other. -/
+theorem selfact_irrelevant (regP regK : List Proto) (evs : List Ev) :
+    (run (init regP regK) evs).2 = (run (init regP regK) (dropSelfact evs)).2 ∧
+    (run (init regP regK) evs).1.forget = (run (init regP regK) (dropSelfact evs)).1.forget :=
+  run_dropSelfact evs (init regP regK)
+
 /-! ## Non-vacuity -/
 
 -- a history that exercises duplicate suppression, takeover filtering, stop and restart
@@ -272,6 +296,15 @@ example : plays (run (init [0, 4] []) (drained
     [.start, .post 0 1, .takeover 4 true false, .post 0 2, .release, .post 0 1])).2 = [(0, 1), (0, 1)] := by decide
 
 example : effPosts [0, 4] [] demo = [(0, 1), (0, 2), (4, 2), (0, 1), (0, 1)] := by decide
+
+-- an updater that turned inactive by itself before stop(): still nothing after stop(), also
+-- not when it then takes over the PushUpdater interface (instance of `silent_after_stop`)
+example : plays (run (init [0, 4] []) [.start, .selfact 4 false, .drain, .stop, .takeover 4 true false,
+    .post 4 1, .drain, .post 0 2, .drain]).2 = [] := by decide
+
+example : (run (init [0, 4] []) [.start, .selfact 4 false]).1.act 4 = false ∧
+    (run (init [0, 4] []) [.start, .selfact 4 false]).1.act 0 = true ∧
+    dropSelfact [.start, .selfact 4 false, .post 0 1] = [.start, .post 0 1] := by decide
 
 example : lastPost 0 [.start, .post 0 1, .drain] = some 1 := by decide
 
